@@ -72,6 +72,8 @@ type regWorld struct {
 	nRes               int
 	resTypes           []reflect.Type
 	resIDs             []ecs.ResID
+	opaque             []bool // per type: values are never written (static pointer-holding types)
+	nStatic            int
 	serial             int
 	fanned, relTargets bool
 	labels             map[string]bool
@@ -244,6 +246,9 @@ func (r *regWorld) hasRel(e *regEnt) bool {
 
 func (r *regWorld) value(t int, tok uint32) (any, []byte) {
 	tp := r.types[t]
+	if t < len(r.opaque) && r.opaque[t] {
+		tok = 0 // pointer-holding static types only ever hold their zero value here
+	}
 	b := core.Expand(tok, int(tp.Size()))
 	v := reflect.New(tp)
 	if tp.Size() > 0 {
@@ -276,6 +281,73 @@ func (r *regWorld) register(shape int) string {
 	r.types = append(r.types, tp)
 	r.isRel = append(r.isRel, rel)
 	r.ids = append(r.ids, id)
+	r.opaque = append(r.opaque, false)
+	return ""
+}
+
+// static types registered through the generic function ecs.ComponentID[T] (the reflect-built shapes go
+// through ecs.TypeID): interfaces, pointers, funcs, maps, slices, strings, channels, scalars, and
+// structs with ecs.Relation embedded first / later.
+type regStaticRel struct {
+	ecs.Relation
+	V uint32
+}
+type regStaticLate struct {
+	V uint32
+	ecs.Relation
+}
+
+var staticRegs = []struct {
+	tp  reflect.Type
+	rel bool
+	reg func(w *ecs.World) ecs.ID
+}{
+	{reflect.TypeOf((*any)(nil)).Elem(), false, func(w *ecs.World) ecs.ID { return ecs.ComponentID[any](w) }},
+	{reflect.TypeOf((*error)(nil)).Elem(), false, func(w *ecs.World) ecs.ID { return ecs.ComponentID[error](w) }},
+	{reflect.TypeOf((*fmt.Stringer)(nil)).Elem(), false, func(w *ecs.World) ecs.ID { return ecs.ComponentID[fmt.Stringer](w) }},
+	{reflect.TypeOf((**int)(nil)).Elem(), false, func(w *ecs.World) ecs.ID { return ecs.ComponentID[*int](w) }},
+	{reflect.TypeOf((*func())(nil)).Elem(), false, func(w *ecs.World) ecs.ID { return ecs.ComponentID[func()](w) }},
+	{reflect.TypeOf((*map[string]int)(nil)).Elem(), false, func(w *ecs.World) ecs.ID { return ecs.ComponentID[map[string]int](w) }},
+	{reflect.TypeOf((*[]byte)(nil)).Elem(), false, func(w *ecs.World) ecs.ID { return ecs.ComponentID[[]byte](w) }},
+	{reflect.TypeOf((*string)(nil)).Elem(), false, func(w *ecs.World) ecs.ID { return ecs.ComponentID[string](w) }},
+	{reflect.TypeOf((*chan int)(nil)).Elem(), false, func(w *ecs.World) ecs.ID { return ecs.ComponentID[chan int](w) }},
+	{reflect.TypeOf((*regStaticRel)(nil)).Elem(), true, func(w *ecs.World) ecs.ID { return ecs.ComponentID[regStaticRel](w) }},
+	{reflect.TypeOf((*regStaticLate)(nil)).Elem(), false, func(w *ecs.World) ecs.ID { return ecs.ComponentID[regStaticLate](w) }},
+	{reflect.TypeOf((*uint64)(nil)).Elem(), false, func(w *ecs.World) ecs.ID { return ecs.ComponentID[uint64](w) }},
+	{reflect.TypeOf((*[0]byte)(nil)).Elem(), false, func(w *ecs.World) ecs.ID { return ecs.ComponentID[[0]byte](w) }},
+	{reflect.TypeOf((*ecs.Relation)(nil)).Elem(), false, func(w *ecs.World) ecs.ID { return ecs.ComponentID[ecs.Relation](w) }},
+}
+
+// registerStatic registers the next unused static type through ecs.ComponentID[T].
+func (r *regWorld) registerStatic() string {
+	if r.nStatic >= len(staticRegs) {
+		return ""
+	}
+	sr := staticRegs[r.nStatic]
+	r.nStatic++
+	n := len(r.types)
+	var id ecs.ID
+	p := core.Call(func() { id = sr.reg(r.w) })
+	if n >= ecs.MaskTotalBits {
+		if p == nil {
+			return fmt.Sprintf("ComponentID[%v] as type number %d (limit %d) did not panic", sr.tp, n+1, ecs.MaskTotalBits)
+		}
+		return ""
+	}
+	if p != nil {
+		return fmt.Sprintf("ComponentID[%v] (type number %d) panicked: %v", sr.tp, n+1, p)
+	}
+	if id != core.RawIDs()[n] {
+		return fmt.Sprintf("ComponentID[%v] as type number %d got id %v, want %d", sr.tp, n+1, id, n)
+	}
+	if again := sr.reg(r.w); again != id {
+		return fmt.Sprintf("ComponentID[%v] gives %v the second time, %v the first", sr.tp, again, id)
+	}
+	r.types = append(r.types, sr.tp)
+	r.isRel = append(r.isRel, sr.rel)
+	r.ids = append(r.ids, id)
+	r.opaque = append(r.opaque, true)
+	r.label("static type registered through ComponentID[T] (interface, pointer, func, map, ...)")
 	return ""
 }
 
@@ -309,6 +381,8 @@ func (r *regWorld) apply(op regOp) string {
 	switch op.K {
 	case "reg":
 		return r.register(op.Shape)
+	case "regstatic":
+		return r.registerStatic()
 	case "rereg":
 		if nt == 0 {
 			return ""
@@ -552,6 +626,7 @@ func (r *regWorld) apply(op regOp) string {
 			return fmt.Sprintf("the registration after a rejected one got id %v, want %d", id, nt)
 		}
 		r.types = append(r.types, tp)
+		r.opaque = append(r.opaque, false)
 		r.isRel = append(r.isRel, rel)
 		r.ids = append(r.ids, id)
 		r.label("registration under lock")
@@ -655,7 +730,7 @@ func runRegCase(c *regReplay) (msg string, labels map[string]bool, nontrivial bo
 
 func TestC16(t *testing.T) {
 	withStats(t, "C16", func(st *core.Stats) {
-		st.Rule = "sequences interleaving registrations of generated type shapes (ecs.Relation embedded first / embedded later / absent; structs, arrays, zero-sized, non-struct) with entity creation, Add/Assign/Remove/Set of components drawn with a bias to the newest and highest IDs, re-registration of known types, registration in a locked world, filling the registry to the limit and one registration more, relation tables that are retired, outlive further registrations and are reused, and the same for the resource registry, and World.Reset (registrations survive it); after every op: ResourceIDs/ResourceType dense, stable and consistent and known component and resource types looked up again keep their IDs, ComponentIDs/ComponentInfo dense, stable and consistent, IsRelation <=> relation embedded first, and every tracked entity is read through EVERY registered ID (Has/Get/Mask, value bytes, Query(All(id)) finds it, Query.Get == World.Get); rejected registrations leave the registry unchanged and the next successful one gets the expected ID; non-trivial = a component whose type was registered after an entity's table existed, in a later 16-ID layout chunk, was added to that entity and read back"
+		st.Rule = "sequences interleaving registrations of generated type shapes (through TypeID) and of static types through the generic ComponentID[T] (interface types, pointers, funcs, maps, slices, strings, channels, scalars, zero-sized, the bare ecs.Relation, structs with Relation first / later) (ecs.Relation embedded first / embedded later / absent; structs, arrays, zero-sized, non-struct) with entity creation, Add/Assign/Remove/Set of components drawn with a bias to the newest and highest IDs, re-registration of known types, registration in a locked world, filling the registry to the limit and one registration more, relation tables that are retired, outlive further registrations and are reused, and the same for the resource registry, and World.Reset (registrations survive it); after every op: ResourceIDs/ResourceType dense, stable and consistent and known component and resource types looked up again keep their IDs, ComponentIDs/ComponentInfo dense, stable and consistent, IsRelation <=> relation embedded first, and every tracked entity is read through EVERY registered ID (Has/Get/Mask, value bytes, Query(All(id)) finds it, Query.Get == World.Get); rejected registrations leave the registry unchanged and the next successful one gets the expected ID; non-trivial = a component whose type was registered after an entity's table existed, in a later 16-ID layout chunk, was added to that entity and read back"
 		if path, ok := replaying(); ok {
 			var r regReplay
 			if err := core.ReadReplay(path, &r); err != nil {
@@ -678,7 +753,7 @@ func TestC16(t *testing.T) {
 					c.Ops = append(c.Ops, regOp{K: "new", T: []int{-1, 0}, E: 0})
 				}
 			}
-			kinds := []string{"reg", "reg", "reg", "reg", "rereg", "new", "new", "add", "add", "add", "rem", "write", "write", "rment", "lockreg", "regres", "fill", "fillres", "fan", "relnew", "relnew", "retire", "reset"}
+			kinds := []string{"reg", "reg", "reg", "reg", "rereg", "new", "new", "add", "add", "add", "rem", "write", "write", "rment", "lockreg", "regres", "fill", "fillres", "fan", "relnew", "relnew", "retire", "reset", "regstatic", "regstatic"}
 			for i := 0; i < nops; i++ {
 				k := rapid.SampledFrom(kinds).Draw(rt, "k")
 				if (k == "fill" || k == "fillres" || k == "reset") && rapid.IntRange(0, 3).Draw(rt, "rare") != 0 {
